@@ -81,6 +81,9 @@ type c11Case struct {
 	Text   string
 	Via    string // cli | ini | default
 	Choice []string
+	// Unquote: the option keeps the default unquote behaviour (a command-line argument that starts with a double
+	// quote is read as a Go string literal)
+	Unquote bool
 }
 
 func c11Gen(c *Ctx) (cs c11Case, cell string) {
@@ -121,7 +124,7 @@ func c11Gen(c *Ctx) (cs c11Case, cell string) {
 		return cs, fmt.Sprintf("int/%s/%s", kind, sp)
 	}
 	k -= nInt
-	sect := k % 8
+	sect := k % 10
 	wraps := []Wrap{WScalar, WScalar, WPtr, WSlice, WSlicePtr, WFunc1}
 	w := wraps[r.Intn(len(wraps))]
 	switch sect {
@@ -211,6 +214,50 @@ func c11Gen(c *Ctx) (cs c11Case, cell string) {
 			}
 			cell = "string"
 		}
+	case 8: // prefix-implied base, bool-kinded and key-position unmarshalers
+		switch r.Intn(3) {
+		case 0:
+			kind := c11IntKinds[r.Intn(10)]
+			cs.T, cs.Base = TypeSpec{K: kind, W: w}, BaseAuto
+			switch r.Intn(3) {
+			case 0:
+				cs.Text = []string{"0", "00", "0x0", "0xFF", "0Xff", "0x7f", "0x80", "-0x80", "-0x81", "0o17", "0O17", "017", "-017", "0b101", "0B101", "0b102", "089", "0x", "0o", "0b", "0xg", "x10", "1_000", "0x_ff", "+0x10", "0x7fffffffffffffff", "0x8000000000000000", "0xffffffffffffffff", "0x10000000000000000", "01777777777777777777777", "02000000000000000000000", "1e3", "0x1p4", " 0x10", "0x10 ", "00x10", "0b", "0_7", "-", "0x-1"}[r.Intn(40)]
+			default:
+				cs.Text = GenScalarText(r, kind, BaseAuto, 0)
+			}
+			cell = "int-prefix-base/" + kind.String()
+		case 1:
+			cs.T = TypeSpec{K: KOnOff, W: []Wrap{WScalar, WPtr, WSlice, WSlicePtr}[r.Intn(4)]}
+			cs.Text = []string{"on", "off", "on", "off", "true", "false", "", "ON", "1", "on ", "of"}[r.Intn(11)]
+			cell = "unmarshaler-bool-kind"
+		default:
+			cs.T = []TypeSpec{{K: KInt, W: WMap, MapKey: KRes}, {K: KString, W: WMap, MapKey: KRes}, {K: KRes}, {K: KRes, W: WSlice}}[r.Intn(4)]
+			key := []string{"cpu", "CPU", "Mem", "g!pu", "!", "", "DISK0", "é"}[r.Intn(8)]
+			if cs.T.W == WMap {
+				val := GenScalarText(r, cs.T.K, 0, 0)
+				cs.Text = key + ":" + strings.ReplaceAll(val, "!", "")
+			} else {
+				cs.Text = key
+			}
+			cell = "unmarshaler-key/" + cs.T.String()
+		}
+	case 9: // arguments that start with a double quote (unquote left on): a Go string literal or nothing
+		cs.T = TypeSpec{K: KString, W: []Wrap{WScalar, WPtr, WSlice, WFunc1}[r.Intn(4)]}
+		cs.Unquote = true
+		if r.Chance(2, 3) {
+			cs.Text = []string{`"abc"`, `""`, `"`, `"a`, `a"`, `"a"b"`, "\"a\nb\"", "\"a\rb\"", "\"raw\ttab\"", `"a\tb"`, `"a\nb"`, `"\q"`, `"\x41"`, `"\xff"`, "\"\xff\"", "\"\xc3\"", `"é"`, `"\u00e9"`, `"\u12"`, `"a\\"`, `"a\"`, `"a\"b"`, `"'"`, `'a'`, "`a`", `"a" `, ` "a"`, `"世界"`, `"\0"`, `"\101"`, `"a\`, "\"\x00\"", `"😀"`, `"\U0001F600"`, `"\ud800"`}[r.Intn(35)]
+		} else {
+			body := GenString(r, r.Intn(12))
+			switch r.Intn(3) {
+			case 0:
+				cs.Text = strconv.Quote(body)
+			case 1:
+				cs.Text = "\"" + body + "\""
+			default:
+				cs.Text = "\"" + body
+			}
+		}
+		cell = "string-literal"
 	default: // choices
 		kinds := []TK{KString, KInt, KUint8, KFloat64, KDuration}
 		kind := kinds[r.Intn(len(kinds))]
@@ -259,6 +306,9 @@ func c11Gen(c *Ctx) (cs c11Case, cell string) {
 	if cs.T.IsFunc() && cs.Via != "cli" {
 		cs.Via = "cli"
 	}
+	if cs.Unquote || (cs.T.K == KOnOff && cs.Via == "default") {
+		cs.Via = "cli" // (unquoting is a command-line feature; default tags on bool-kinded types are refused)
+	}
 	return cs, cell
 }
 
@@ -271,7 +321,7 @@ func c11Run(c *Ctx) {
 	d.Root = root
 	d.Cmds = append(d.Cmds, root)
 	d.Grps = append(d.Grps, root.G)
-	o := &Opt{ID: d.NewID(), Field: "Val", Long: "val", Short: 'v', T: t, Base: cs.Base, NoUnquote: true, Choices: cs.Choice, Grp: root.G, Cmd: root}
+	o := &Opt{ID: d.NewID(), Field: "Val", Long: "val", Short: 'v', T: t, Base: cs.Base, NoUnquote: !cs.Unquote, Choices: cs.Choice, Grp: root.G, Cmd: root}
 	if cs.Via == "default" {
 		o.Defaults = []string{cs.Text}
 	}
@@ -369,6 +419,14 @@ func c11Run(c *Ctx) {
 		why = kv.Why + "/" + vv.Why
 	} else {
 		rv := RefScalar(t.K, cs.Base, cs.Text)
+		if cs.Unquote && strings.HasPrefix(cs.Text, "\"") {
+			// the argument is a Go string literal (strconv.Unquote is the trusted reading) or it is malformed
+			if u, uerr := strconv.Unquote(cs.Text); uerr != nil {
+				rv = RefVal{Cls: MustReject, Why: "starts with a double quote but is not a string literal"}
+			} else {
+				rv = RefScalar(t.K, cs.Base, u)
+			}
+		}
 		cls, why = rv.Cls, rv.Why
 		if rv.HasVal {
 			hasWant = true
@@ -452,6 +510,10 @@ func c11Run(c *Ctx) {
 		}
 		if hasWant {
 			rv := RefScalar(t.K, cs.Base, cs.Text)
+			if cs.Unquote && strings.HasPrefix(cs.Text, "\"") {
+				u, _ := strconv.Unquote(cs.Text)
+				rv = RefScalar(t.K, cs.Base, u)
+			}
 			if got := b.Log.E[0].Args[0]; got != Canon(rv.Val) {
 				c.Violate("inexact:callback:"+kindGroup(t), "callback for %q received %s, denoted value %s", cs.Text, got, Canon(rv.Val))
 				return
@@ -497,7 +559,7 @@ func init() {
 		},
 		Run:           c11Run,
 		MinNontrivial: 500,
-		Rule: "cases 0..79799 enumerate exhaustively 10 integer kinds x bases 2..36 x 57 boundary values {min-1,min,min+1,-1,0,1,max-1,max,max+1, +-2^k and +-2^k+-1 for k in 7,8,15,16,31,32,63,64} x 4 spellings {plain, leading zeros, upper-case digits, plus sign}; the rest draw from float32/64 tables (limits, halfway cases, long mantissas, special forms) and random decimals, Duration unit combinations at the int64 limits, decorated integers, map entries (k:v, k:, k, :v, k:v:w), func(bool) arguments, value- and pointer-receiver Unmarshalers, strings, and choice sets of size 1-5 with near-miss values; wrapped as scalar / pointer / slice / slice of pointers / callback; delivered through the command line (unquote off), an INI entry or a default tag. " +
+		Rule: "cases 0..79799 enumerate exhaustively 10 integer kinds x bases 2..36 x 57 boundary values {min-1,min,min+1,-1,0,1,max-1,max,max+1, +-2^k and +-2^k+-1 for k in 7,8,15,16,31,32,63,64} x 4 spellings {plain, leading zeros, upper-case digits, plus sign}; the rest draw from float32/64 tables (limits, halfway cases, long mantissas, special forms) and random decimals, Duration unit combinations at the int64 limits, decorated integers, map entries (k:v, k:, k, :v, k:v:w), func(bool) arguments, value- and pointer-receiver Unmarshalers (also bool-kinded and in map-key position), integers with base:\"0\" in every prefixed spelling, arguments that start with a double quote (Go string literal or malformed, unquote on), strings, and choice sets of size 1-5 with near-miss values; wrapped as scalar / pointer / slice / slice of pointers / callback; delivered through the command line (unquote off), an INI entry or a default tag. " +
 			"Oracle: independent big.Int/big.Rat reference functions classify each text as must-accept / must-reject / may-either; accepted values must equal the reference value bit-exactly; rejections must be ErrMarshal / ErrInvalidChoice identifying the option (and listing every choice). distinct = (type, base, channel, class, outcome, text length).",
 		Assumptions: []string{"liberal-only forms (+5, 0x prefixes, underscores, Inf/NaN, underflow to zero, sub-nanosecond fractions, bare-dot forms, k without colon) are may-either", "IniError carries no Type: its message is mapped to the flag error it wraps"},
 		Technique:   "runtime reference-model monitor: arbitrary-precision reference conversions (not strconv) as a three-way oracle; exhaustive integer kind x base x boundary enumeration",
